@@ -280,6 +280,19 @@ def run_case(res: Result, spec, idx):
             def on_tx(interp, rec_):
                 run["rec"].log.append(("timers", observe.live_timers(interp)))
             run["rec"].on_tx = on_tx
+            if idx % 5 == 3:
+                # contained faults: a few "last" entry/exit markers (en.X.b / ex.X.b) log themselves
+                # and then raise.  An action that raises skips the rest of ITS list only, and it is
+                # the last of its list - so every law of this check must hold exactly as without.
+                frng = rng_for(spec["seed"], ID, spec["chunk"], idx, "raisers", engine)
+                acts = run["machine"].logic.actions
+                cands = sorted(n for n in acts if n[:3] in ("en.", "ex.") and n.endswith(".b"))
+                for n in frng.sample(cands, min(len(cands), frng.randint(1, 4))):
+                    def raiser(i, c, e, a, _orig=acts[n]):
+                        _orig(i, c, e, a)
+                        raise RuntimeError("injected failure of a user action")
+                    acts[n] = raiser
+                res.count("runs.with-raising-last-markers." + engine)
 
         f = drive.run_sync if engine == "sync" else drive.run_async
         run = f(case, nev, erng, on_step, setup=setup)
